@@ -256,6 +256,7 @@ def h_format(e):
 SKELETONS = {
     'art1': ('article', ['S', 'SS', 'SS', 'SSS', 'S', 'EQ', 'SS', 'EQ', 'FIG', 'S']),
     'art2': ('article', ['S', 'ENUM', 'SS', 'SET', 'S', 'SS', 'APP', 'S', 'SS']),
+    'art3': ('article', ['EQN', 'S', 'EQ', 'EQN']),
     'book1': ('book', ['C', 'S', 'EQ', 'SS', 'C', 'EQ', 'S', 'FIG', 'S']),
     'book2': ('book', ['C', 'S', 'SET', 'S', 'APP', 'C', 'S']),
 }
@@ -318,6 +319,20 @@ def h_doc(e, skel, depth):
                 expect.append(('equation', the('equation')))
             except _OutOfRange:
                 expect.append(('equation', 'skip'))
+        elif it == 'EQN':
+            # eqnarray with three rows, \\nonumber on one of them (or none)
+            nn = e.choice(4, 'nonumber%d' % k)
+            k += 1
+            rows = []
+            for r in range(3):
+                rows.append('a&=&b' + ('\\nonumber ' if r == nn else ''))
+            src.append('\\begin{eqnarray}' + '\\\\'.join(rows) + '\\end{eqnarray}')
+            for r in range(3):
+                if r == nn:
+                    expect.append(('ArrayRow', None))
+                else:
+                    cnt['equation'] = cnt['equation'] + 1
+                    expect.append(('ArrayRow', the('equation')))
         elif it == 'FIG':
             src.append('\\begin{figure}\\caption{F}\\end{figure}')
             cnt['figure'] = cnt['figure'] + 1
@@ -421,7 +436,7 @@ def jobs(tier, seed):
         for g in graphs(n):
             nops = 3 if (q or n == 4) else 4
             J.append(dict(harness='h_reset', params=dict(n=n, parents=list(g), nops=nops), label='reset n=%d %s ops=%d' % (n, g, nops), no_twin=n > 2))
-    sk = ['art1', 'art2', 'book1'] if q else list(SKELETONS)
+    sk = ['art1', 'art2', 'art3', 'book1'] if q else list(SKELETONS)
     for s in sk:
         for depth in ((0, 1, 2, 3) if q else (-1, 0, 1, 2, 3, 4)):
             J.append(dict(harness='h_doc', params=dict(skel=s, depth=depth), label='doc %s depth=%d' % (s, depth), split=3, no_twin=depth != 2))
